@@ -270,7 +270,7 @@ pub async fn run_op(nodes: &[NodeH], op: &Op) -> Option<bool> {
                 Some((t0, repair)) => {
                     let r = repair.as_millis() as u64;
                     let now = t0.elapsed().as_millis() as u64;
-                    let next = if now < 500 { 500 } else { ((now - 500) / r + 1) * r + 500 };
+                    let next = if now < 500 { 500 } else { (now / r + 1) * r };
                     e3::advance(next + offset - now).await;
                 },
                 None => e3::advance(*offset).await,
